@@ -35,6 +35,12 @@ REGRESSIONS_QUICK = (
     ("ProvDispatchImplVarTypeblind.cfg", "lookup ignores the provider type"),
     ("ProvDispatchImplVarEarlycall.cfg",
      "provider called before the property validation"),
+    ("ProvDispatchImplVarNsblind.cfg",
+     "a provider is registered in every namespace"),
+    ("ProvDispatchImplVarSetupfirst.cfg",
+     "post_register_setup before the registry update"),
+    ("ProvDispatchImplVarSwallowerr.cfg",
+     "CIMError of the provider dropped"),
 )
 REGRESSIONS_MORE = (
     ("ProvDispatchImplPinnedNsArg.cfg",
@@ -47,16 +53,10 @@ REGRESSIONS_MORE = (
      "pinned: class names compared case-sensitively with the pragma file"),
     ("ProvDispatchImplPinnedRecompile.cfg",
      "pinned: existing served classes are recompiled"),
-    ("ProvDispatchImplVarNsblind.cfg",
-     "a provider is registered in every namespace"),
     ("ProvDispatchImplVarNodefaultns.cfg",
      "namespaces=None registers in all namespaces"),
-    ("ProvDispatchImplVarSetupfirst.cfg",
-     "post_register_setup before the registry update"),
     ("ProvDispatchImplVarSetuponfail.cfg",
      "post_register_setup also after a failed registration"),
-    ("ProvDispatchImplVarSwallowerr.cfg",
-     "CIMError of the provider dropped"),
 )
 
 
@@ -146,12 +146,12 @@ def drive(ctx, behs, nrand, nproc=8):
 def run(ctx):
     quick = ctx.tier == "quick"
     model_checks(ctx, quick)
-    nsim = 120 if quick else 1500
+    nsim = 200 if quick else 1500
     _, behs = ctx.simulate_behaviours(
         "ProvDispatchImpl", "ProvDispatchImplSim.cfg", nsim, 30,
         label="behaviour emission (call sequences, two-phase choice)")
     ctx.extra["tlc_behaviours_replayed"] = len(behs)
-    nrand = 500 if quick else 8000
+    nrand = 1200 if quick else 8000
     drivers = drive(ctx, behs, nrand)
     judge(ctx, drivers)
     selftest(ctx, drivers)
